@@ -459,17 +459,16 @@ Proof. intros; constructor; [simpl; split; [assumption|lia]|assumption]. Qed.
 Lemma ext_frames_length : forall st st', ext st st' -> List.length (frames st) <= List.length (frames st').
 Proof. intros st st' (L & _); exact L. Qed.
 
-Lemma ev_inits_seq_wf : forall bs st sc f, wf_state st -> wf_scope st sc -> f < List.length (frames st) ->
-  good_res st ptrue (ev_inits_seq m ev st sc f bs).
+Definition wf_scope_res (st : state) (sc : scope) : Prop := wf_scope st sc.
+Lemma ev_inits_seq_wf : forall bs st sc, wf_state st -> wf_scope st sc ->
+  good_res st wf_scope_res (ev_inits_seq m ev st sc bs).
 Proof.
-  induction bs as [|[[x e] s0] bs IH]; intros st sc f W S F; simpl; [apply good_ret; [assumption|exact I]|].
-  eapply good_bind; [apply Hev; [assumption|apply wf_scope_cur; assumption]|]. intros v s E Ws Vs.
+  induction bs as [|[[x e] s0] bs IH]; intros st sc W S; simpl; [apply good_ret; assumption|].
+  eapply good_bind; [apply Hev; assumption|]. intros v s E Ws Vs.
   apply good_bindo; [assumption|]. intros a Ha.
-  eapply good_from; [apply ext_bind_in, ext_refl|].
-  apply IH.
-  - apply wf_bind_in; [assumption|eapply wf_store_red; eauto].
-  - eapply wf_scope_ext; [apply ext_bind_in, ext_refl|]. eapply wf_scope_ext; eauto.
-  - pose proof (ext_frames_length _ _ E). pose proof (ext_frames_length _ _ (ext_bind_in s s f x a (ext_refl s))). lia.
+  apply (good_alloc_then scope s [(x, a)] sc wf_scope_res (fun st2 sc2 => ev_inits_seq m ev st2 sc2 bs)); auto.
+  - constructor; [|constructor]. simpl. eapply wf_store_red; eauto.
+  - eapply wf_scope_ext; eauto.
 Qed.
 Definition wf_pairs (st : state) (xs : list (string * val)) : Prop := Forall (fun xv => wf_val st (snd xv)) xs.
 Lemma ev_steps_par_wf : forall bs st sc, wf_state st -> wf_scope st sc -> good_res st wf_pairs (ev_steps_par m ev st sc bs).
@@ -480,9 +479,10 @@ Proof.
   eapply good_bind; [apply IH; [assumption|eapply wf_scope_ext; eauto]|]. intros xs s2 E2 W2 V2.
   apply good_ret; [assumption|]. constructor; [|exact V2]. simpl. eapply wf_val_ext; [exact E2|]. eapply wf_store_red; eauto.
 Qed.
-Lemma ev_steps_seq_wf : forall bs st sc f, wf_state st -> wf_scope st sc -> good_res st ptrue (ev_steps_seq m ev st sc f bs).
+Lemma ev_steps_seq_wf : forall bs st sc fs, wf_state st -> wf_scope st sc -> good_res st ptrue (ev_steps_seq m ev st sc fs bs).
 Proof.
-  induction bs as [|[[x e] [s0|]] bs IH]; intros st sc f W S; simpl; [apply good_ret; [assumption|exact I]| |apply IH; assumption].
+  induction bs as [|[[x e] [s0|]] bs IH]; intros st sc [|f fs] W S; simpl;
+    try (apply good_ret; [assumption|exact I]); try (apply good_err; assumption); [|apply IH; assumption].
   eapply good_bind; [apply Hev; assumption|]. intros v s E Ws Vs.
   apply good_bindo; [assumption|]. intros a Ha.
   eapply good_from; [apply ext_bind_in, ext_refl|].
@@ -606,53 +606,44 @@ Proof.
     eapply good_bind; [apply ev_map_wf; [assumption|apply (wf_resolve s fv c Ws Vf Hc)|apply wf_transpose; eapply wf_lists_of; [exact Va|exact L]]|].
     intros rs s2 E2 W2 V2. apply good_ret; [assumption|apply wf_val_mk_list; assumption].
   - (* EDolist *)
-    change (mkSt (frames st ++ [[]]) (funs st) (trace st)) with (snd (alloc st [])).
-    assert (E1 : ext st (snd (alloc st []))) by (apply ext_alloc, ext_refl).
-    assert (W1 : wf_state (snd (alloc st []))) by (apply wf_alloc; [assumption|constructor]).
-    assert (F1 : List.length (frames st) < List.length (frames (snd (alloc st [])))) by (simpl; rewrite app_length; simpl; lia).
-    eapply good_from; [exact E1|].
-    eapply good_bind; [apply Hev; [assumption|apply (wf_scope_alloc st [] sc); assumption]|]. intros v s E Ws Vs.
+    eapply good_bind; [apply Hev; assumption|]. intros v s E Ws Vs.
     apply good_bindo; [assumption|]. intros v' Hv'.
     assert (Vv' : wf_val s v').
     { destruct (is_values v); [eapply wf_last_red; eauto|inversion Hv'; subst; assumption]. }
     destruct (list_of v') as [vs|] eqn:L; [|apply good_err; assumption].
-    assert (Fs : List.length (frames st) < List.length (frames s)) by (pose proof (ext_frames_length _ _ E); lia).
-    assert (Ssc : wf_scope s sc) by (eapply wf_scope_ext; [exact E|eapply wf_scope_ext; eauto]).
+    assert (Ssc : wf_scope s sc) by (eapply wf_scope_ext; eauto).
+    change (mkSt (frames s ++ [[(x, VNil)]]) (funs s) (trace s)) with (snd (alloc s [(x, VNil)])).
+    assert (E3 : ext s (snd (alloc s [(x, VNil)]))) by (apply ext_alloc, ext_refl).
+    assert (W3 : wf_state (snd (alloc s [(x, VNil)]))) by (apply wf_alloc; [assumption|constructor; [apply wf_nil|constructor]]).
+    assert (S3 : wf_scope (snd (alloc s [(x, VNil)])) ((List.length (frames s), 1) :: sc)) by (apply (wf_scope_alloc s [(x, VNil)] sc); assumption).
+    eapply good_from; [exact E3|].
     eapply good_bind.
-    + eapply good_from; [apply ext_bind_in, ext_refl|]. apply ev_iter_wf.
-      * apply wf_bind_in; [assumption|apply wf_nil].
-      * apply wf_scope_loop; assumption.
-      * eapply wf_vals_ext; [apply ext_bind_in, ext_refl|eapply wf_list_of; eauto].
-    + intros u s3 E3 W3 _.
+    + apply ev_iter_wf; [exact W3|exact S3|eapply wf_vals_ext; [exact E3|eapply wf_list_of; eauto]].
+    + intros u s4 E4 W4 _.
       eapply good_from; [apply ext_bind_in, ext_refl|]. apply ev_opt_wf; [apply wf_bind_in; [assumption|apply wf_nil]|].
-      apply wf_scope_loop; [pose proof (ext_frames_length _ _ E3); lia|ws].
+      eapply wf_scope_ext; [apply ext_bind_in, ext_refl|]. eapply wf_scope_ext; [exact E4|exact S3].
   - (* EDotimes *)
-    change (mkSt (frames st ++ [[]]) (funs st) (trace st)) with (snd (alloc st [])).
-    assert (E1 : ext st (snd (alloc st []))) by (apply ext_alloc, ext_refl).
-    assert (W1 : wf_state (snd (alloc st []))) by (apply wf_alloc; [assumption|constructor]).
-    assert (F1 : List.length (frames st) < List.length (frames (snd (alloc st [])))) by (simpl; rewrite app_length; simpl; lia).
-    eapply good_from; [exact E1|].
-    eapply good_bind; [apply Hev; [assumption|apply (wf_scope_alloc st [] sc); assumption]|]. intros v s E Ws Vs.
+    eapply good_bind; [apply Hev; assumption|]. intros v s E Ws Vs.
     apply good_bindo; [assumption|]. intros v' Hv'.
     destruct v'; try (apply good_err; assumption).
-    assert (Fs : List.length (frames st) < List.length (frames s)) by (pose proof (ext_frames_length _ _ E); lia).
-    assert (Ssc : wf_scope s sc) by (eapply wf_scope_ext; [exact E|eapply wf_scope_ext; eauto]).
+    assert (Ssc : wf_scope s sc) by (eapply wf_scope_ext; eauto).
+    change (mkSt (frames s ++ [[(x, VNil)]]) (funs s) (trace s)) with (snd (alloc s [(x, VNil)])).
+    assert (E3 : ext s (snd (alloc s [(x, VNil)]))) by (apply ext_alloc, ext_refl).
+    assert (W3 : wf_state (snd (alloc s [(x, VNil)]))) by (apply wf_alloc; [assumption|constructor; [apply wf_nil|constructor]]).
+    assert (S3 : wf_scope (snd (alloc s [(x, VNil)])) ((List.length (frames s), 1) :: sc)) by (apply (wf_scope_alloc s [(x, VNil)] sc); assumption).
+    eapply good_from; [exact E3|].
     eapply good_bind.
-    + eapply good_from; [apply ext_bind_in, ext_refl|]. apply ev_iter_wf.
-      * apply wf_bind_in; [assumption|apply wf_nil].
-      * apply wf_scope_loop; assumption.
-      * apply wf_ints.
-    + intros u s3 E3 W3 _.
+    + apply ev_iter_wf; [exact W3|exact S3|apply wf_ints].
+    + intros u s4 E4 W4 _.
       eapply good_from; [apply ext_bind_in, ext_refl|]. apply ev_opt_wf; [apply wf_bind_in; [assumption|constructor]|].
-      apply wf_scope_loop; [pose proof (ext_frames_length _ _ E3); lia|ws].
+      eapply wf_scope_ext; [apply ext_bind_in, ext_refl|]. eapply wf_scope_ext; [exact E4|exact S3].
   - (* EDo *) destruct star.
     + change (mkSt (frames st ++ [[]]) (funs st) (trace st)) with (snd (alloc st [])).
       assert (E1 : ext st (snd (alloc st []))) by (apply ext_alloc, ext_refl).
       assert (W1 : wf_state (snd (alloc st []))) by (apply wf_alloc; [assumption|constructor]).
       eapply good_from; [exact E1|].
-      eapply good_bind; [apply ev_inits_seq_wf; [assumption|ws|simpl; rewrite app_length; simpl; lia]|].
-      intros u s E Ws _. apply Hev; [assumption|]. apply wf_scope_cur; [|ws].
-      pose proof (ext_frames_length _ _ E). simpl in *. rewrite app_length in *. simpl in *. lia.
+      eapply good_bind; [apply ev_inits_seq_wf; [assumption|apply (wf_scope_alloc st [] sc); assumption]|].
+      intros sc1 s E Ws Ssc1. apply Hev; assumption.
     + gb ltac:(apply ev_inits_wf). intros vs s E Ws Vs.
       apply (good_alloc_then val s (mk_frame (map (fun b => fst (fst b)) bs) vs) sc wf_val
                (fun st2 sc2 => ev st2 sc2 (EDoLoop false bs e rs es))); ws.
